@@ -128,8 +128,9 @@ def _cli(root, flags):
         sys.argv = old
 
 
-def observe(tree, root, seed, cli_flags):
-    """what the real code does with the tree on disk + what the real per-file validators say about the SPEC's merges"""
+def observe(tree, root, seed, wflags, cli_flags):
+    """what the real code does with the tree on disk + what the real per-file validators say about the SPEC's merges.
+    wflags: the check_for_warnings values to run validate() with; cli_flags: argument lists for the command line."""
     from hed.tools.bids.bids_dataset import BidsDataset
     from hed.models.sidecar import Sidecar
     from hed.models.tabular_input import TabularInput
@@ -146,13 +147,14 @@ def observe(tree, root, seed, cli_flags):
                           for p, f in grp.datafile_dict.items()}
         got["sc"] = {os.path.relpath(p, rroot): f.contents.loaded_dict for p, f in grp.sidecar_dict.items()}
         got["issues"] = {}
-        for w in (False, True):
+        for w in wflags:
             got["issues"][str(w)] = project(ds.validate(check_for_warnings=w))
     except Exception as ex:  # noqa
         got["raised"] = "%s: %s" % (type(ex).__name__, str(ex)[:200])
     # expected side: real per-file validators on the merges the specification prescribes
     want = {"issues": {}}
-    for w in (False, True):
+    need = set(wflags) | {"--check-for-warnings" in f for f in cli_flags}
+    for w in sorted(need):
         lst = []
         for sc in tree["sidecars"]:
             name = os.path.basename(sc["path"])
@@ -182,16 +184,25 @@ def pick_seed(tree, rng):
     return {"kind": "row", "path": rng.choice(evs)["path"], "row": rng.randrange(len(ROWS))}
 
 
+def plan(n):
+    """which (expensive) observations are made for the n-th tree; the merged-sidecar comparison is made for every tree,
+    clean and seeded, and validate(check_for_warnings=False) + the command line for every seeded tree"""
+    return {"w_clean": [False, True] if n % 8 == 0 else ([False] if n % 4 == 0 else []),
+            "cli_clean": [["--check-for-warnings"]] if n % 8 == 0 else ([[]] if n % 4 == 0 else []),
+            "w_seeded": [False, True] if n % 8 == 3 else [False],
+            "cli_seeded": [["-f", "json"]] if n % 16 == 5 else ([["--check-for-warnings"]] if n % 8 == 3 else [[]])}
+
+
 def execute(case):
-    tree = case["tree"]
+    tree, pl = case["tree"], case["plan"]
     root = os.path.join(_G["work"], "t%d_%d" % (case["n"], os.getpid()))
     out = {}
     try:
         materialise(tree, root)
-        out["clean"] = observe(tree, root, None, case["cli_clean"])
+        out["clean"] = observe(tree, root, None, pl["w_clean"], pl["cli_clean"])
         if case.get("seed"):
             materialise(tree, root, case["seed"])
-            out["seeded"] = observe(tree, root, case["seed"], case["cli_seeded"])
+            out["seeded"] = observe(tree, root, case["seed"], pl["w_seeded"], pl["cli_seeded"])
     finally:
         shutil.rmtree(root, ignore_errors=True)
     return dict(case, out=out)
@@ -249,20 +260,23 @@ def judge_run(tree, seed, obs, label):
                      "%s: sidecar applied to %s has columns %s, specification: chain %s merged %s (code took it from %s)"
                      % (label, p, {c: (v.get("Description") if isinstance(v, dict) else v) for c, v in got["ev"][p].items()},
                         e["chain"], e["merged"] or {}, got["ev_from"].get(p))))
+    deepest_only = bool(bad_merge) and all(k == "merged:" + DEEPEST for k, _ in prob if k.startswith("merged:"))
     # 2b. merged content of each sidecar file (spec detail: the statement speaks of data files)
     for p, s in sorted(sc_spec.items()):
         if p in got["sc"] and got["sc"][p] != merged_dict(s["merged"], seed):
             drift.append("%s: merged content of sidecar file %s differs from chain %s" % (label, p, s["chain"]))
     # 3. validate() == per-file validation of the specification's merges
-    for w in ("False", "True"):
+    for w in sorted(got["issues"]):
         extra, missing = _diff(got["issues"][w], want["issues"][w])
         if not extra and not missing:
             continue
         files = {i[2] for i in extra + missing}
         follows = bool(bad_merge) and files <= bad_merge
         kinds = sorted({("extra:" + i[0]) for i in extra} | {("missing:" + i[0]) for i in missing})
-        key = "validate:" + (("follows-merged:" + DEEPEST) if follows and all(k.startswith("merged:" + DEEPEST) for k, _ in prob if k.startswith("merged:"))
-                             else ("follows-merged" if follows else ",".join(kinds)[:120]))
+        if follows:
+            key = "validate:follows-merged" + (":" + DEEPEST if deepest_only else "")
+        else:
+            key = "validate:" + ",".join(kinds)[:120]
         prob.append((key, "%s: validate(check_for_warnings=%s) differs from validating each merged sidecar and each events file "
                           "with its merged sidecar: unexpected %s, missing %s" % (label, w, extra[:4], missing[:4])))
     # 4. CLI exit status
@@ -273,13 +287,15 @@ def judge_run(tree, seed, obs, label):
         if "raised" in r:
             drift.append("%s: hed_validator %s raised %s" % (label, flags, r["raised"]))
         if want_nonzero != got_nonzero:
-            own = bool(got["issues"][w])
-            if own == got_nonzero and own != want_nonzero:
-                key = "cli:follows-validate" + (":" + DEEPEST if bad_merge else "")
+            own = bool(got["issues"][w]) if w in got["issues"] else None
+            if bad_merge and (own is None or (own == got_nonzero and own != want_nonzero)):
+                key = "cli:follows-merged" + (":" + DEEPEST if deepest_only else "")
+            elif own is not None and own == got_nonzero and own != want_nonzero:
+                key = "cli:follows-validate"
             else:
                 key = "cli:exit-zero-with-issues" if want_nonzero else "cli:exit-nonzero-without-issues"
             prob.append((key, "%s: hed_validator.main(%r) returned %r, the prescribed issue list has %d entries (validate() returned %d)"
-                         % (label, flags, r["rc"], len(want["issues"][w]), len(got["issues"][w]))))
+                         % (label, flags, r["rc"], len(want["issues"][w]), len(got["issues"].get(w, [])))))
     # 5. seeded error: files reported with an error == files the specification says carry the seeded entry
     if seed:
         if seed["kind"] == "sc":
@@ -290,7 +306,8 @@ def judge_run(tree, seed, obs, label):
         got_dirty = {i[2] for i in got["issues"]["False"]}
         if got_dirty != dirty:
             follows = bool(bad_merge) and (got_dirty ^ dirty) <= bad_merge
-            prob.append(("seed:%s:%s" % (seed["kind"], ("follows-merged" if follows else "files-with-errors-differ")),
+            prob.append(("seed:%s:%s" % (seed["kind"], ("follows-merged" + (":" + DEEPEST if deepest_only else "") if follows
+                                                        else "files-with-errors-differ")),
                          "%s: files reported with errors %s, specification %s" % (label, sorted(got_dirty), sorted(dirty))))
     return prob, drift
 
@@ -304,7 +321,7 @@ def judge(case):
             prob += p
             drift += d
     # machinery sanity: a clean tree must be clean at error level according to the per-file validators
-    if case["out"]["clean"]["want"]["issues"]["False"]:
+    if case["out"]["clean"]["want"]["issues"].get("False"):
         raise RuntimeError("concretisation is not clean: %s" % case["out"]["clean"]["want"]["issues"]["False"][:3])
     if case.get("seed") and not case["out"]["seeded"]["want"]["issues"]["False"]:
         raise RuntimeError("seeded error is not reported by the per-file validators: %s" % case["seed"])
@@ -324,15 +341,39 @@ def _tree_key(t):
     return json.dumps([t["shape"], sorted(t["decoy"]), sorted((s["path"], sorted(s["cols"])) for s in t["sidecars"])], sort_keys=True)
 
 
-def _with_cfg(base, name, repl):
-    with open(os.path.join(tlc.SPECS, base)) as f:
-        txt = f.read()
-    for a, b in repl:
-        assert a in txt, (a, base)
-        txt = txt.replace(a, b)
-    with open(os.path.join(tlc.SPECS, name), "w") as f:
-        f.write(txt)
-    return name
+def _tlc_jobs(ctx, jobs):
+    """Run several TLC jobs concurrently (they are independent processes) and book them like Ctx.tlc does.
+    jobs: list of dict(module, cfg, label, expect (None = must pass, or the invariant that must be violated), **tlc.run kwargs)"""
+    import concurrent.futures as cf
+
+    def one(i, job):
+        kw = {k: v for k, v in job.items() if k not in ("module", "cfg", "label", "expect")}
+        kw["workdir"] = os.path.join(ctx.work, "tlc%d" % i)
+        return tlc.run(job["module"], job["cfg"], **kw)
+    with cf.ThreadPoolExecutor(len(jobs)) as ex:
+        futs = [ex.submit(one, i, j) for i, j in enumerate(jobs)]
+        res = [f.result() for f in futs]
+    for job, r in zip(jobs, res):
+        ctx.states += r.distinct
+        ctx.transitions += r.generated
+        ctx.tlc_runs.append(dict(r.as_dict(), module=job["module"], cfg=job["cfg"], label=job["label"], violated=r.violated))
+        for a, (d, t) in r.coverage.items():
+            od, ot = ctx.actions.get(a, (0, 0))
+            ctx.actions[a] = (od + d, ot + t)
+        if job.get("expect") is None and r.violated:
+            raise tlc.TLCFailure("model %s/%s violates %s\n%s" % (job["module"], job["cfg"], r.violated,
+                                                                  "\n".join(x + "\n" + y for x, y in r.trace[-3:])))
+        if job.get("expect") is not None and r.violated != job["expect"]:
+            raise tlc.TLCFailure("sensitivity run %s: expected %s to be violated, got %r" % (job["cfg"], job["expect"], r.violated))
+    return res
+
+
+SENS = [("MC_Bids_shallow.cfg", "MergedIsTopDown", "shallower sidecar wins"),
+        ("MC_Bids_nobids.cfg", "Deterministic", "generator without the BIDS rule"),
+        ("MC_Bids_noexcl.cfg", "ExcludedIgnored", "no excluded directories configured"),
+        ("MC_Bids_deepest.cfg", "DeepestSuffices", "merged content of the deepest sidecar FILE instead of the data file's own chain"),
+        ("MC_Bids_vac_override.cfg", "NeverOverrides", "vacuity guard: an override happens"),
+        ("MC_Bids_vac_three.cfg", "NeverThreeLevels", "vacuity guard: a three-level chain exists")]
 
 
 def run(ctx):
@@ -340,51 +381,37 @@ def run(ctx):
     ctx.rule = ("cases = dataset trees of Bids.tla: shape (1-2 subjects x 0-2 sessions x 1-2 tasks x 1-2 runs) + a set of sidecars, "
                 "each at any level of the path of some events file with any subset of its entities and any non-empty subset of "
                 "2 column keys, BIDS rule 'at most one applicable sidecar per directory' kept, decoys in excluded directories / "
-                "with another suffix; exhaustive for small shapes (<= 2 sidecars), TLC -simulate for the larger ones (<= 4 sidecars); "
+                "with another suffix; exhaustive for the smallest shapes (<= 2 sidecars), TLC -simulate over all shapes (<= 4 sidecars); "
                 "each tree replayed clean and with one seeded error; distinct = distinct (shape, decoys, sidecar set); "
                 "non-trivial = some events file inherits from >= 2 sidecars")
-    # ---- design runs -------------------------------------------------------------------------------------
-    made = []
-    try:
-        if quick:
-            ctx.tlc("MC_Bids", "MC_Bids.cfg", workers=16, coverage=True, timeout=600,
-                    label="design: fold == deepest-defining, chain exact, deterministic, decoys ignored (1 sub x 1 ses x 2 tasks, <= 2 sidecars, all decoy sets)")
-        else:
-            ctx.tlc("MC_Bids", "MC_Bids_thorough.cfg", workers=16, coverage=True, timeout=1500,
-                    label="design: all invariants, shapes with <= 4 events files, <= 2 sidecars")
-            ctx.tlc("MC_Bids", "MC_Bids_three.cfg", workers=16, coverage=True, timeout=1500,
-                    label="design: all invariants, 1 sub x 1 ses x 1 task x 1 run, <= 3 sidecars (three-level chains)")
-        # sensitivity: broken variants of the model must be caught, vacuity guards must be violated
-        sens = [("MC_Bids_shallow.cfg", "MergedIsTopDown", "shallower sidecar wins"),
-                ("MC_Bids_nobids.cfg", "Deterministic", "generator without the BIDS rule"),
-                ("MC_Bids_noexcl.cfg", "ExcludedIgnored", "no excluded directories configured"),
-                ("MC_Bids_deepest.cfg", "DeepestSuffices", "merged content of the deepest sidecar file instead of the file's own chain"),
-                ("MC_Bids_vac_override.cfg", "NeverOverrides", "vacuity: an override happens"),
-                ("MC_Bids_vac_three.cfg", "NeverThreeLevels", "vacuity: a three-level chain exists")]
-        for cfg, inv, what in sens:
-            r = ctx.tlc("MC_Bids", cfg, workers=4, expect_ok=False, timeout=600, label="sensitivity: " + what)
-            if r.violated != inv:
-                raise tlc.TLCFailure("sensitivity run %s: expected %s to be violated, got %r" % (cfg, inv, r.violated))
-        ctx.note("sensitivity_runs", [s[0] for s in sens])
-        # the pairwise generator guard is exactly the BIDS rule (ENFORCE_BIDS = FALSE, so both sides vary)
-        ctx.tlc("MC_Bids", "MC_Bids_guard.cfg", workers=8, timeout=600, label="generator guard <=> at most one applicable sidecar per directory")
-        # ---- case generation ---------------------------------------------------------------------------------
-        trees = {}
-        r = ctx.tlc("MC_Bids", "MC_Bids_gen.cfg" if quick else "MC_Bids_gen_thorough.cfg", workers=1, timeout=1500,
-                    label="tree generation (exhaustive) with expected chains and merges")
-        n_exh = 0
-        for j in r.json_lines:
+    jobs = []
+    if quick:
+        jobs.append(dict(module="MC_Bids", cfg="MC_Bids.cfg", workers=8, coverage=True, timeout=600, expect=None,
+                         label="design: fold == deepest-defining, chain exact, deterministic, decoys ignored "
+                               "(1 sub x 1 ses x 2 tasks, <= 2 sidecars, no/all decoys)"))
+    else:
+        jobs.append(dict(module="MC_Bids", cfg="MC_Bids_thorough.cfg", workers=10, coverage=True, timeout=2400, expect=None,
+                         label="design: all invariants, shapes with <= 4 events files, <= 2 sidecars"))
+        jobs.append(dict(module="MC_Bids", cfg="MC_Bids_three.cfg", workers=4, coverage=True, timeout=2400, expect=None,
+                         label="design: all invariants, 1 sub x 1 ses x 1 task x 1 run, <= 3 sidecars (three-level chains)"))
+    for cfg, inv, what in SENS:
+        jobs.append(dict(module="MC_Bids", cfg=cfg, workers=1, timeout=600, expect=inv, label="sensitivity: " + what))
+    jobs.append(dict(module="MC_Bids", cfg="MC_Bids_guard.cfg", workers=2, timeout=600, expect=None,
+                     label="generator guard <=> at most one applicable sidecar per directory (ENFORCE_BIDS = FALSE)"))
+    jobs.append(dict(module="MC_Bids", cfg="MC_Bids_gen.cfg" if quick else "MC_Bids_gen_thorough.cfg", workers=1, timeout=2400,
+                     expect=None, label="tree generation (exhaustive) with expected chains and merges"))
+    jobs.append(dict(module="MC_Bids", cfg="MC_Bids_sim.cfg", workers=1, mode="simulate",
+                     simulate="num=%d" % (250 if quick else 6000), depth=5, seed=ctx.seed + 16, timeout=2400, expect=None,
+                     label="tree generation (simulate, all shapes, <= 4 sidecars)"))
+    res = _tlc_jobs(ctx, jobs)
+    ctx.note("sensitivity_runs", [s[0] for s in SENS])
+    trees = {}
+    for j in res[-2].json_lines:
+        trees.setdefault(_tree_key(j), j)
+    n_exh = len(trees)
+    for j in res[-1].json_lines:
+        if j["nsc"] >= 2:
             trees.setdefault(_tree_key(j), j)
-            n_exh += 1
-        nsim = 250 if quick else 6000
-        r = ctx.tlc("MC_Bids", "MC_Bids_sim.cfg", workers=1, mode="simulate", simulate="num=%d" % nsim, depth=5,
-                    seed=ctx.seed + 16, timeout=1500, label="tree generation (simulate, all shapes, <= 4 sidecars)")
-        for j in r.json_lines:
-            if j["nsc"] >= 2:
-                trees.setdefault(_tree_key(j), j)
-    finally:
-        for m in made:
-            os.remove(os.path.join(tlc.SPECS, m))
     ctx.exhaustive = True
     ctx.note("trees_exhaustive", n_exh)
     ctx.note("trees_total", len(trees))
@@ -395,12 +422,9 @@ def run(ctx):
     for n, k in enumerate(sorted(trees)):
         t = trees[k]
         rng = random.Random("%d/%s" % (ctx.seed, k))
-        seed = pick_seed(t, rng)
-        cases.append({"n": n, "tree": t, "seed": seed,
-                      "cli_clean": [[], ["--check-for-warnings"]] if n % 4 == 0 else [[]],
-                      "cli_seeded": [["-f", "json"]] if n % 16 == 5 else [[]]})
-    with mp.get_context("fork").Pool(14) as pool:
-        done = pool.map(execute, cases, chunksize=16)
+        cases.append({"n": n, "tree": t, "seed": pick_seed(t, rng), "plan": plan(n)})
+    with mp.get_context("fork").Pool(15) as pool:
+        done = pool.map(execute, cases, chunksize=8)
     ndrift = 0
     drift_ex = []
     stats = collections.Counter()
@@ -409,19 +433,20 @@ def run(ctx):
         maxchain = max(len(e["chain"]) for e in t["events"])
         ctx.case(_tree_key(t), nontrivial=maxchain >= 2)
         ctx.traces += 1
-        stats["chain%d" % maxchain] += 1
+        stats["max_chain_%d" % maxchain] += 1
         stats["seed_" + c["seed"]["kind"]] += 1
-        if any(e["chain"] and e["merged"] != {s["path"]: s for s in t["sidecars"]}[e["chain"][-1]]["merged"] for e in t["events"]):
+        bysc = {s["path"]: s for s in t["sidecars"]}
+        if any(e["chain"] and e["merged"] != bysc[e["chain"][-1]]["merged"] for e in t["events"]):
             stats["trees_where_deepest_sidecar_own_chain_differs"] += 1
         prob, drift = judge(c)
         if drift:
             ndrift += 1
-            if len(drift_ex) < 5:
+            if len(drift_ex) < 5 and drift[0] not in drift_ex:
                 drift_ex.append(drift[0])
         for key, text in prob:
             ctx.violation(key, text + " | tree: shape=%s decoy=%s sidecars=%s"
                           % (t["shape"], t["decoy"], sorted((s["path"], s["cols"]) for s in t["sidecars"])),
-                          {"tree": t, "seed": c["seed"], "cli_clean": c["cli_clean"], "cli_seeded": c["cli_seeded"], "key": key})
+                          {"tree": t, "seed": c["seed"], "plan": c["plan"], "key": key})
             stats["problem:" + key] += 1
     ctx.note("spec_drift", ndrift)
     ctx.note("spec_drift_examples", drift_ex)
@@ -445,8 +470,7 @@ def replay(obj):
     os.makedirs(work, exist_ok=True)
     _G["work"] = work
     try:
-        c = execute({"n": 0, "tree": obj["tree"], "seed": obj.get("seed"), "cli_clean": obj.get("cli_clean", [[]]),
-                     "cli_seeded": obj.get("cli_seeded", [[]])})
+        c = execute({"n": 0, "tree": obj["tree"], "seed": obj.get("seed"), "plan": obj.get("plan") or plan(3)})
         prob, _ = judge(c)
     finally:
         shutil.rmtree(work, ignore_errors=True)
